@@ -573,6 +573,9 @@ func init() {
 	h["os/user.Current"] = func(fr *frame, args []value) value {
 		return tuple{zero(fr.fn.Signature.Results().At(0).Type()), fr.i.mkErr(&verr{msg: "nouser"})}
 	}
+	h["os.Environ"] = func(fr *frame, args []value) value { return valStrings([]string{"HOME=/h"}) }
+	h["os.LookupEnv"] = func(fr *frame, args []value) value { return tuple{"", false} }
+	h["os.Getenv"] = func(fr *frame, args []value) value { return "" }
 	h["os.Getpid"] = func(fr *frame, args []value) value { return 4242 }
 	h["github.com/f1bonacc1/process-compose/src/pclog.Name2Color"] = func(fr *frame, args []value) value {
 		return nativeFn(func(fr *frame, a []value) value { return "" })
@@ -639,6 +642,17 @@ func harnessIntrinsic(fn *ssa.Function) nativeFn {
 			r.Chooses = append(r.Chooses, p)
 			return p
 		}
+	case "verifChooseK":
+		return func(fr *frame, args []value) value {
+			r := fr.i.R
+			n := int(asInt64(args[1]))
+			p := r.S.choose("choose", n)
+			if r.ChooseK == nil {
+				r.ChooseK = map[string]int{}
+			}
+			r.ChooseK[concStr(args[0])] = p
+			return p
+		}
 	case "verifLazy":
 		return func(fr *frame, args []value) value {
 			s := fr.i.R.S
@@ -653,14 +667,19 @@ func harnessIntrinsic(fn *ssa.Function) nativeFn {
 		return func(fr *frame, args []value) value {
 			s := fr.i.R.S
 			me := s.cur
+			me.quiescing = true
 			s.Block("quiesce", func() bool {
 				for _, t := range s.threads {
-					if t != me && !t.done && (t.ready == nil || t.ready()) {
+					if t == me || t.done || t.quiescing {
+						continue
+					}
+					if t.ready == nil || t.ready() {
 						return false
 					}
 				}
 				return !s.pendingTimers()
 			})
+			me.quiescing = false
 			return nil
 		}
 	case "verifSymbolicMapOrder":
